@@ -166,6 +166,10 @@ class TypingShapes:
 # specialisation
 
 
+# (template loop variable, property name) -> attribute chain the property forwards to; filled from plugin/models.py by the rules
+PROPERTY_CHAINS: Dict[Tuple[str, str], str] = {}
+
+
 @dataclass
 class Config:
     compiler: str = "direct"                    # direct | root | 310
@@ -175,6 +179,14 @@ class Config:
 
     def flag(self, text: str) -> bool:
         if text not in self.flags:
+            # a forwarding property of the plugin model (`method.deprecated` -> `method.proto_obj.options.deprecated`)
+            var, _, chain = text.partition(".")
+            head, _, rest = chain.partition(".")
+            fwd = PROPERTY_CHAINS.get((var, head))
+            if fwd is not None:
+                alt = f"{var}.{fwd}" + ("." + rest if rest else "")
+                if alt in self.flags:
+                    return self.flags[alt]
             raise AnalysisError(f"template condition `{text}` is not covered by the configuration space")
         return self.flags[text]
 
